@@ -3,6 +3,8 @@
 package main
 
 import (
+	"crypto/sha256"
+	"encoding/hex"
 	"fmt"
 	"go/ast"
 	"go/token"
@@ -297,6 +299,45 @@ func init() {
 			num(k[0], vc, k[1])
 		}
 
+		// H265RawSPS.Decode: where the sub-layer ordering loop starts
+		hsps := Parse("av/codec/hevc/sps.go")
+		startInit, startIf := "", ""
+		if fd := FuncDecl(hsps, "H265RawSPS", "Decode"); fd != nil {
+			for i, st := range fd.Body.List {
+				t := strings.Join(strings.Fields(Src(st)), " ")
+				if strings.HasPrefix(t, "loopStart :=") && i+1 < len(fd.Body.List) {
+					startInit = t
+					startIf = strings.Join(strings.Fields(Src(fd.Body.List[i+1])), " ")
+				}
+			}
+		}
+		e.P("/-- av/codec/hevc/sps.go H265RawSPS.Decode: initialisation of the sub-layer ordering loop -/")
+		e.P("def hevcSpsOrderingStart : String := %s", LeanStr(startInit+" ; "+startIf))
+		switch startInit + " ; " + startIf {
+		case "loopStart := uint8(0) ; if sps.Sps_sub_layer_ordering_info_present_flag == 1 { loopStart = sps.Sps_max_sub_layers_minus1 }":
+			e.P("def hevcSpsOrderingStd : Bool := false")
+		case "loopStart := sps.Sps_max_sub_layers_minus1 ; if sps.Sps_sub_layer_ordering_info_present_flag == 1 { loopStart = 0 }":
+			e.P("def hevcSpsOrderingStd : Bool := true")
+		default:
+			e.Unknown("hevc.sps.orderingStart")
+			e.P("def hevcSpsOrderingStd : Bool := false")
+		}
+		// H265RawSTRefPicSet.decode: the whole body by hash (pinned / repaired)
+		rb := bodySrc(FuncDecl(hsps, "H265RawSTRefPicSet", "decode"))
+		sum := sha256.Sum256([]byte(rb))
+		rh := hex.EncodeToString(sum[:])
+		e.P("/-- av/codec/hevc/sps.go H265RawSTRefPicSet.decode: sha256 of the normalised statements of the body -/")
+		e.P("def hevcStRpsBodySha : String := %s", LeanStr(rh))
+		switch rh {
+		case hevcStRpsOldSha:
+			e.P("def hevcRpsInterStd : Bool := false")
+		case hevcStRpsNewSha:
+			e.P("def hevcRpsInterStd : Bool := true")
+		default:
+			e.Unknown("hevc.stRps.body")
+			e.P("def hevcRpsInterStd : Bool := false")
+		}
+
 		// ---------------- av/codec/aac ----------------
 		ac := consts{}
 		acf := Parse("av/codec/aac/const.go")
@@ -360,6 +401,8 @@ func init() {
 }
 
 // the shapes of the repaired functions (kept in step with the 'fix:' commits in /repo)
+const hevcStRpsOldSha = "14c86a457a06877b428070b7d72f41026de14c12559d18b3c56043daf5e5df2e"
+const hevcStRpsNewSha = "aa90604d2b14f72d50d55e6dae0deb87532f22599f3b3d2ef76d6e33e0617a4d"
 const aacGuardNew = "asc.ObjectType == AOT_SBR || (asc.ObjectType == AOT_PS && !(r.Peek(3)&0x03 != 0 && r.Peek(9)&0x3F == 0))"
 const h264WidthNew = "cropUnitX, _ := sps.cropUnits() ; return (int(sps.PicWidthInMbsMinus1)+1)*16 - cropUnitX*(int(sps.FrameCropLeftOffset)+int(sps.FrameCropRightOffset))"
 const h264HeightNew = "_, cropUnitY := sps.cropUnits() ; return (2-int(sps.FrameMbsOnlyFlag))*(int(sps.PicHeightInMapUnitsMinus1)+1)*16 - cropUnitY*(int(sps.FrameCropTopOffset)+int(sps.FrameCropBottomOffset))"
